@@ -181,8 +181,11 @@ Definition rel_effects (c : config) (diff : bool) (st : stage) : list fs_op :=
   | Load | Parse | Diff | Final | Other | Post => []
   | Setup =>
       if diff then [Mkdirs []; Mkdirs o; Mkdirs k]
-      else [Rmtree o; Mkdirs (removelast o); Mkdirs o]
+      else (* the registry of a core INSIDE the output directory is read before the clean-up and written back *)
+           (if under o k && negb (path_eqb o k) then [Stash (k ++ [s_registry])] else [])
+           ++ [Rmtree o; Mkdirs (removelast o); Mkdirs o]
            ++ (if path_eqb k o then [] else [Mkdirs (removelast k); Mkdirs k])
+           ++ (if under o k && negb (path_eqb o k) then [Unstash (k ++ [s_registry])] else [])
            ++ init_chain o
            ++ (if core_str_inside_out c then [] else init_chain k)
   | Exceptions =>
